@@ -12,6 +12,9 @@ import (
 	_ "verif/harness/props/c26"
 	_ "verif/harness/props/c27"
 	_ "verif/harness/props/c28"
+	_ "verif/harness/props/c30"
+	_ "verif/harness/props/c31"
+	_ "verif/harness/props/c32"
 	_ "verif/harness/props/c34"
 	_ "verif/harness/props/c35"
 	_ "verif/harness/props/c36"
@@ -21,4 +24,5 @@ import (
 	_ "verif/harness/props/c46"
 	_ "verif/harness/props/c47"
 	_ "verif/harness/props/c48"
+	_ "verif/harness/props/c49"
 )
